@@ -611,6 +611,38 @@ def run(prop, tier, mir_text=None):
                     why.append("the information object does not carry (utility, regrets) as returned by the evaluator")
         structural.append(("ev-getinfo", "Strategies::get_info evaluates the game's own tree and tables with each player's probabilities split by that player's infosets, and keeps the evaluator's (utility, regrets)", not why, "; ".join(why)))
 
+    # ------------------------------------------------------------------ split_by (how a flat probability vector is cut)
+    sk = [k for k, v in fns.items() if k.startswith("split::") and k.endswith("::next") and "-> Option<&[T]>" in v.split("\n", 1)[0]]
+    sf = struct_fields("SplitsBy", "split.rs")
+    if len(sk) != 1 or not sf or set(sf) != {"slice", "lens"}:
+        res["infra"].append(f"split::SplitsBy::next not as expected: {sk} {sf}")
+    else:
+        ex = mir.Executor(mir.Fn("sp", fns[sk[0]]), max_visits=2)
+        sps = ex.run()
+        why = []
+        me = ("sym", "sp:_1")
+        I_SL, I_LN = sf.index("slice"), sf.index("lens")
+        if ex.unknown or len(sps) != 2:
+            why.append(f"{len(sps)} paths {sorted(set(ex.unknown))[:2]}")
+        for p in sps:
+            (sc, d), = p.cond[:1]
+            nxt = ("call", "<I as Iterator>::next", [("field", me, I_LN)])
+            if sc != ("discr", nxt):
+                why.append("the branch is not on the next length")
+                continue
+            if d == ("eq", "0"):
+                if p.env.get("_0") != ("agg", "None", {}) or p.stores:
+                    why.append("without a next length the iterator does not simply end")
+            else:
+                ln = ("field", ("downcast", nxt, "Some"), 0)
+                r = p.env.get("_0")
+                sa = r[1][1] if isinstance(r, tuple) and r[0] == "some" and r[1][0] == "field" and r[1][2] == 0 else None
+                if not (sa is not None and sa[0] == "call" and sa[1].endswith("::split_at") and sa[2][1] == ln and sa[2][0][0] == "field" and sa[2][0][2] == I_SL):
+                    why.append("the slice returned is not the first `len` elements of the remaining vector")
+                elif not (len(p.stores) == 1 and p.stores[0][0][0] == "field" and p.stores[0][0][2] == I_SL and p.stores[0][1] == ("field", sa, 1)):
+                    why.append("the remaining vector is not advanced to the rest after the returned slice")
+        structural.append(("ev-split", "a flat probability vector is cut into consecutive slices: each call returns the first `len` remaining elements and keeps the rest", not why, "; ".join(why)))
+
     # ------------------------------------------------------------------ discharge
     half = [q for q in queries if "HALF" in q[3]]
     queries = [q for q in queries if "HALF" not in q[3]]
